@@ -67,6 +67,12 @@ ResourceOf(call) ==
 
 Allowed(pol, call) == <<call.c, ResourceOf(call), ActionOf(call.m)>> \in pol
 
+\* Every entry a handler asks for on the caller's behalf: the entry of the call itself, and the entries of the
+\* calls it makes in the caller's name while serving it (SetCursor PUBLISHES the cursor to the cursors stream with
+\* the caller's identity: documentation "in order to use cursor, the client must also have permissions on __cursors")
+Needs(call) == {<<call.c, ResourceOf(call), ActionOf(call.m)>>}
+               \cup (IF call.m = "SetCursor" THEN {<<call.c, CursorsStream, "Publish">>} ELSE {})
+
 VARIABLE clientAuth   \* tls.client.auth.enabled: client certificates are requested AND verified against the CA
 (* A caller has an identity only through a VERIFIED certificate: the server   *)
 (* must verify client certificates and the caller must present one that       *)
@@ -246,6 +252,10 @@ DoReload ==
 Refused(o) == o.res \in {"Denied", "Err"}
 P_Call(call) ==
   Unauthorised(EffPolicy, call) => (Refused(obs') /\ World' = World)
+\* "is rejected and has no effect", whichever check rejected it: a call that is ANSWERED with an authorisation
+\* denial - by its own check or by the check of a call it makes in the caller's name - has changed nothing.  (Whether
+\* a handler needs such inner entries at all is left open: a call that holds its own entry and is carried out is fine.)
+P_Denial == obs'.res = "Denied" => World' = World
 \* a reload of a loadable file takes effect; one that cannot be loaded grants nothing new
 P_Reload == /\ fileOK => policy' = policyFile
             /\ ~fileOK => policy' \subseteq policy
